@@ -695,7 +695,11 @@ def _run_chart_case(case, check_from=0):
             inc = op[1] if len(op) > 1 else None
             model.include = inc
             model.touched = set()
-            s = _do_stack(m, inc)
+            try:
+                s = _do_stack(m, inc)
+            except Exception as ex:  # stacking (also restricted to list types) must not raise
+                out.append(("stack_op_raises", f"op {k} {op}: {type(ex).__name__}: {ex}"))
+                return out
         else:
             try:
                 r = _apply_real(s, model, op)
